@@ -2,7 +2,7 @@
    All functions named nary_* are slices of sc_notify_recursive_nary GENERATED from /repo (Gen/NotifyC01.v). *)
 From Coq Require Import ZArith List Bool.
 From Coq Require Import Permutation Lia.
-From ScV Require Import Base.CInt Gen.NotifyC01 C01.NaryArith C01.NaryDelivery C01.MergeModel C01.MergeProofs C01.MergeCorr Gen.Consts C18.MacroProofs C01.BinaryArith MPI.Prog C01.NotifyProgs C01.NotifyProgProofs C01.RecordOps C01.BinaryRound C01.NaryRound C01.PexRound C01.NbxProofs.
+From ScV Require Import Base.CInt Gen.NotifyC01 C01.NaryArith C01.NaryDelivery C01.MergeModel C01.MergeProofs C01.MergeCorr Gen.Consts C18.MacroProofs C01.BinaryArith MPI.Prog C01.NotifyProgs C01.NotifyProgProofs C01.RecordOps C01.BinaryRound C01.NaryRound C01.NaryCore C01.PexRound C01.NbxProofs.
 Import ListNotations.
 Local Open Scope Z_scope.
 
@@ -347,22 +347,44 @@ Theorem C01_nary_round_semantics : forall G (R : Z -> list Z), 0 < G <= BIG ->
 Proof. exact nary_round_semantics. Qed.
 Print Assumptions C01_nary_round_semantics.
 
-(* the entry point nary_core.  PARTIAL: the full statement has no hypotheses Hdepth / Hdesc; they state what the
-   generated depth loop (nary_depth) and the descent of the recursion (nary_descent) compute for the configuration -
-   closed computations for concrete widths and size (see the example), not yet derived for all widths *)
-Theorem C01_nary_core_round_semantics_partial : forall G (R : Z -> list Z) ntop nint nbot depth prod (ls : list (Z * Z)) (orders : Z -> Z -> list Z) sz0,
+(* the GENERATED depth loop terminates (fuel 64) for all widths >= 2 and every size in the range without int overflow;
+   it returns the number of levels and the product of their widths, which covers the size, and (for more than two
+   levels) one level less would not cover it *)
+Theorem C01_nary_depth_spec : forall G ntop nint nbot,
+  0 < G <= BIG -> 2 <= ntop -> 2 <= nint -> 2 <= nbot -> nbot <= BIG -> nbot * ntop <= BIG -> G * nint <= BIG ->
+  exists depth prod, nary_depth 64 G nbot ntop nint = Some (depth, prod) /\ 1 <= depth < 60 /\
+    prod = prodl (map snd (nary_dt depth ntop nint nbot)) /\ G <= prod <= BIG /\
+    (depth = 1 \/ depth = 2 \/ prod < G * nint).
+Proof. exact nary_depth_spec. Qed.
+Print Assumptions C01_nary_depth_spec.
+
+(* the descent of the recursion of rank me visits, from the deepest level to the top, the levels nary_ls with
+   start = first rank of me's group and length = width * part length *)
+Theorem C01_nary_descent_spec : forall me depth ntop nint nbot,
+  0 <= me <= BIG -> 2 <= ntop -> 2 <= nint -> 2 <= nbot -> 1 <= depth < 60 ->
+  prodl (map snd (nary_dt depth ntop nint nbot)) <= BIG -> me < prodl (map snd (nary_dt depth ntop nint nbot)) ->
+  rev (nary_descent 64 me 0 depth ntop nint nbot 0 (prodl (map snd (nary_dt depth ntop nint nbot)))) = mk_lv me 1 (nary_ls depth ntop nint nbot).
+Proof. exact nary_descent_spec. Qed.
+Print Assumptions C01_nary_descent_spec.
+
+(* FULL STRENGTH, the entry point nary_core (sc_notify_payload_nary): for every size 1 < G <= 2^29, all widths >= 2
+   (products in int range), every family of ascending receiver lists and every arrival order at every level
+   (orders_ok: at each level the wildcard receives return the messages of that level's sources, each once) every rank
+   returns the ascending list of the ranks that listed it *)
+Theorem C01_nary_core_round_semantics : forall G (R : Z -> list Z) ntop nint nbot,
   0 < G <= BIG -> G <> 1 ->
   (forall f, 0 <= f < G -> ssorted (fun x => x) (R f) /\ forall t, In t (R f) -> 0 <= t < G) ->
-  nary_depth 64 G nbot ntop nint = Some (depth, prod) ->
-  (forall me, 0 <= me < G -> rev (nary_descent 64 me 0 depth ntop nint nbot 0 prod) = mk_lv me 1 ls) ->
-  G <= prodl (map snd ls) -> prodl (map snd ls) <= BIG ->
-  (forall me, 0 <= me < G -> levels_ok G depth ntop nint nbot me (orders me) 1 ls) ->
+  2 <= ntop -> 2 <= nint -> 2 <= nbot -> nbot <= BIG -> nbot * ntop <= BIG -> G * nint <= BIG ->
+  forall sz0,
+  exists depth prod, nary_depth 64 G nbot ntop nint = Some (depth, prod) /\ G <= prod /\
+  forall orders : Z -> Z -> list Z,
+  (forall me, 0 <= me < G -> orders_ok G me (orders me) 1 (nary_ls depth ntop nint nbot)) ->
   forall me, 0 <= me < G ->
-  run (all_replies G R (fun _ _ => []) me (orders me) 1 ls h0)
+  run (all_replies G R (fun _ _ => []) me (orders me) 1 (nary_ls depth ntop nint nbot) h0)
       (nary_core G me ntop nint nbot (R me) None sz0 (fun s g => Ret (result s g)))
-  = (all_acts G R (fun _ _ => []) me 1 ls h0, Some (result (transpose G R me) [])).
-Proof. exact nary_core_round_semantics. Qed.
-Print Assumptions C01_nary_core_round_semantics_partial.
+  = (all_acts G R (fun _ _ => []) me 1 (nary_ls depth ntop nint nbot) h0, Some (result (transpose G R me) [])).
+Proof. exact nary_core_round_semantics_full. Qed.
+Print Assumptions C01_nary_core_round_semantics.
 
 Example C01_nary_round_nonvacuous :
   (* 5 ranks, widths ntop = nint = nbot = 2: depth 3, product 8; levels from the deepest: (2,2) (1,2) (0,2) *)
